@@ -22,6 +22,9 @@
     * WMA adds its running `total` into `numerator` at every step; the same analysis bounds the drift of `total` linearly
       and that of `numerator` only quadratically, `t·q^t·cN + t²·q^(2t+2)·cT` (`C07_wma_float_drift_quadratic`) — this is
       why the linear allowance is *not* guaranteed for WMA / HMA on very long streams (known finding numeric-drift:hma).
+    * Vidya (its |CMO| clamped to 1 by a `fix:` commit): started in ANY state — the two never-recomputed running sums may
+      hold rounding residue of either sign — every output of every run stays inside the range of the data
+      (`C07_vidya_residue_cannot_leave_range`); before the fix the output grew geometrically on a flat stretch.
   These reduce "every history length" to a bounded suffix.  Floating-point drift of the running
   accumulators over 10^4 … 10^6+ steps is measured, not proved: the correspondence run drives every
   method for a long stream with regime changes and compares, at late positions (dense around 255, 256,
@@ -33,6 +36,7 @@ import YataProofs.LocalityAll
 import YataProofs.FloatBound
 import YataProofs.FloatBoundEMA
 import YataProofs.FloatBoundWMA
+import YataProofs.VidyaRobust
 namespace Yata.C07
 open Yata
 variable {α : Type} {K : Type} [Field K] [LinearOrder K] [IsStrictOrderedRing K]
@@ -112,6 +116,13 @@ theorem C07_exponential_forgetting (a v w : K) (ys : List K) :
 theorem C07_forgetting_bound (a v w : K) (ys : List K) (h0 : 0 ≤ a) (h1 : a ≤ 1) :
     |Spec.emaRec a v ys - Spec.emaRec a w ys| ≤ |v - w| := emaRec_forgetting_bound a v w ys h0 h1
 
+/-- whatever the past left in Vidya's running sums, a run over inputs from `[lo, hi]` that starts with its previous output
+    in `[lo, hi]` keeps every output in `[lo, hi]` (`0 ≤ f ≤ 1` holds for every accepted length: `f = 2/(1+n)`, `n ≥ 1`) -/
+theorem C07_vidya_residue_cannot_leave_range (lo hi : K) (xs : List K) (s : Vidya K) (os : List K) (s' : Vidya K)
+    (hf0 : 0 ≤ s.f) (hf1 : s.f ≤ 1) (hl : lo ≤ s.last_output) (hh : s.last_output ≤ hi)
+    (hx : ∀ x ∈ xs, lo ≤ x ∧ x ≤ hi) (hr : runM Vidya.next s xs = .ok (os, s')) : ∀ o ∈ os, lo ≤ o ∧ o ≤ hi :=
+  Vidya.run_hull_any_state lo hi xs s os s' hf0 hf1 hl hh hx hr
+
 example : lastN 2 (history 2 (0 : Nat) ([9, 9, 9, 9] ++ [1, 2])) = lastN 2 (history 2 5 [1, 2]) := by decide
 
 end Yata.C07
@@ -126,3 +137,4 @@ end Yata.C07
 #print axioms Yata.C07.C07_ema_float_drift_uniform
 #print axioms Yata.C07.C07_wma_float_drift_quadratic
 #print axioms Yata.C07.C07_wma_model_update
+#print axioms Yata.C07.C07_vidya_residue_cannot_leave_range
